@@ -5,60 +5,60 @@ From Coq Require Import Reals.
 From PV Require Import Calib.RBase gen.CalibGen.
 Open Scope R_scope.
 
-(* psiaudio/stim.py:1027  tone  under calibration is None = False *)
+(* psiaudio/stim.py:1029  tone  under calibration is None = False *)
 Definition tone_sample (sens level polarity i offset fs frequency phase : R) : R :=
   (Rmult (Rmult (Rmult polarity (cal_get_sf sens level 0)) (sqrt 2)) (cos (Rplus (Rmult (Rmult (Rmult 2 PI) (Rdiv (Rplus i offset) fs)) frequency) phase))).
-(* psiaudio/stim.py:1027  tone  under calibration is None = True *)
+(* psiaudio/stim.py:1029  tone  under calibration is None = True *)
 Definition tone_sample_nocal (level polarity i offset fs frequency phase : R) : R :=
   (Rmult (Rmult (Rmult polarity level) (sqrt 2)) (cos (Rplus (Rmult (Rmult (Rmult 2 PI) (Rdiv (Rplus i offset) fs)) frequency) phase))).
-(* psiaudio/stim.py:368  sam_eq_power *)
+(* psiaudio/stim.py:370  sam_eq_power *)
 Definition sam_eq_power (depth : R) : R :=
   (sqrt (Rplus (Rminus (Rmult (Rdiv 3 8) (pow depth 2%nat)) depth) 1)).
-(* psiaudio/stim.py:1072  sam_tone  under calibration is not None = True, equalize = True, depth != 1 = False, eq_power = True  component 0  value of `s` *)
+(* psiaudio/stim.py:1075  sam_tone  under calibration is not None = True, equalize = True, depth != 1 = False, eq_power = True  component 0  value of `s` *)
 Definition sam_lb_sample (sens_lb level polarity i offset fs fc fm depth phase_lb : R) : R :=
   (Rmult (Rmult (Rmult polarity (Rdiv (Rmult (cal_get_sf sens_lb level 0) (Rdiv 1 4)) (sam_eq_power depth))) (sqrt 2)) (cos (Rplus (Rmult (Rmult (Rmult 2 PI) (Rdiv (Rplus i offset) fs)) (Rplus fc (Rmult fm (Ropp 1)))) phase_lb))).
-(* psiaudio/stim.py:1072  sam_tone  under calibration is not None = True, equalize = True, depth != 1 = False, eq_power = True  component 1  value of `s` *)
+(* psiaudio/stim.py:1075  sam_tone  under calibration is not None = True, equalize = True, depth != 1 = False, eq_power = True  component 1  value of `s` *)
 Definition sam_c_sample (sens_c level polarity i offset fs fc fm depth phase : R) : R :=
   (Rmult (Rmult (Rmult polarity (Rdiv (Rmult (cal_get_sf sens_c level 0) (Rdiv 1 2)) (sam_eq_power depth))) (sqrt 2)) (cos (Rplus (Rmult (Rmult (Rmult 2 PI) (Rdiv (Rplus i offset) fs)) (Rplus fc (Rmult fm 0))) phase))).
-(* psiaudio/stim.py:1072  sam_tone  under calibration is not None = True, equalize = True, depth != 1 = False, eq_power = True  component 2  value of `s` *)
+(* psiaudio/stim.py:1075  sam_tone  under calibration is not None = True, equalize = True, depth != 1 = False, eq_power = True  component 2  value of `s` *)
 Definition sam_ub_sample (sens_ub level polarity i offset fs fc fm depth phase_ub : R) : R :=
   (Rmult (Rmult (Rmult polarity (Rdiv (Rmult (cal_get_sf sens_ub level 0) (Rdiv 1 4)) (sam_eq_power depth))) (sqrt 2)) (cos (Rplus (Rmult (Rmult (Rmult 2 PI) (Rdiv (Rplus i offset) fs)) (Rplus fc (Rmult fm 1))) phase_ub))).
-(* psiaudio/stim.py:1072  sam_tone  under calibration is not None = True, equalize = True, depth != 1 = False, eq_power = False  component 0  value of `s` *)
+(* psiaudio/stim.py:1075  sam_tone  under calibration is not None = True, equalize = True, depth != 1 = False, eq_power = False  component 0  value of `s` *)
 Definition sam_lb_sample_noeq (sens_lb level polarity i offset fs fc fm depth phase_lb : R) : R :=
   (Rmult (Rmult (Rmult polarity (Rmult (cal_get_sf sens_lb level 0) (Rdiv 1 4))) (sqrt 2)) (cos (Rplus (Rmult (Rmult (Rmult 2 PI) (Rdiv (Rplus i offset) fs)) (Rplus fc (Rmult fm (Ropp 1)))) phase_lb))).
-(* psiaudio/stim.py:1072  sam_tone  under calibration is not None = True, equalize = True, depth != 1 = False, eq_power = False  component 1  value of `s` *)
+(* psiaudio/stim.py:1075  sam_tone  under calibration is not None = True, equalize = True, depth != 1 = False, eq_power = False  component 1  value of `s` *)
 Definition sam_c_sample_noeq (sens_c level polarity i offset fs fc fm depth phase : R) : R :=
   (Rmult (Rmult (Rmult polarity (Rmult (cal_get_sf sens_c level 0) (Rdiv 1 2))) (sqrt 2)) (cos (Rplus (Rmult (Rmult (Rmult 2 PI) (Rdiv (Rplus i offset) fs)) (Rplus fc (Rmult fm 0))) phase))).
-(* psiaudio/stim.py:1072  sam_tone  under calibration is not None = True, equalize = True, depth != 1 = False, eq_power = False  component 2  value of `s` *)
+(* psiaudio/stim.py:1075  sam_tone  under calibration is not None = True, equalize = True, depth != 1 = False, eq_power = False  component 2  value of `s` *)
 Definition sam_ub_sample_noeq (sens_ub level polarity i offset fs fc fm depth phase_ub : R) : R :=
   (Rmult (Rmult (Rmult polarity (Rmult (cal_get_sf sens_ub level 0) (Rdiv 1 4))) (sqrt 2)) (cos (Rplus (Rmult (Rmult (Rmult 2 PI) (Rdiv (Rplus i offset) fs)) (Rplus fc (Rmult fm 1))) phase_ub))).
-(* psiaudio/stim.py:1331  ClickFactory.__init__  value of `self.waveform` *)
+(* psiaudio/stim.py:1336  ClickFactory.__init__  value of `self.waveform` *)
 Definition click_sample (sens level polarity : R) : R :=
   (Rmult (Rmult polarity (cal_get_sf sens level 0)) 1).
-(* psiaudio/stim.py:522  BroadbandNoiseFactory.__init__  under equalize = False, calibration is None = False  value of `self.low` *)
+(* psiaudio/stim.py:524  BroadbandNoiseFactory.__init__  under equalize = False, calibration is None = False  value of `self.low` *)
 Definition bb_low (msf : R) : R :=
   (Rmult (Ropp (sqrt 3)) msf).
-(* psiaudio/stim.py:522  BroadbandNoiseFactory.__init__  under equalize = False, calibration is None = False  value of `self.high` *)
+(* psiaudio/stim.py:524  BroadbandNoiseFactory.__init__  under equalize = False, calibration is None = False  value of `self.high` *)
 Definition bb_high (msf : R) : R :=
   (Rmult (sqrt 3) msf).
-(* psiaudio/stim.py:549  BroadbandNoiseFactory.next *)
+(* psiaudio/stim.py:551  BroadbandNoiseFactory.next *)
 Definition bb_sample (polarity u : R) : R :=
   (Rmult polarity u).
-(* psiaudio/stim.py:636  BandlimitedNoiseFactory.__init__  under calibration is None = False  value of `self.low` *)
+(* psiaudio/stim.py:638  BandlimitedNoiseFactory.__init__  under calibration is None = False  value of `self.low` *)
 Definition bl_low (msf fs fl fh : R) : R :=
   (Rmult (Rmult (Ropp (sqrt 3)) (Rdiv 1 (sqrt (Rdiv (Rmult (Rminus fh fl) 2) fs)))) msf).
-(* psiaudio/stim.py:636  BandlimitedNoiseFactory.__init__  under calibration is None = False  value of `self.high` *)
+(* psiaudio/stim.py:638  BandlimitedNoiseFactory.__init__  under calibration is None = False  value of `self.high` *)
 Definition bl_high (msf fs fl fh : R) : R :=
   (Rmult (Rmult (sqrt 3) (Rdiv 1 (sqrt (Rdiv (Rmult (Rminus fh fl) 2) fs)))) msf).
-(* psiaudio/stim.py:696  BandlimitedNoiseFactory.next  under samples == 0 = False *)
+(* psiaudio/stim.py:698  BandlimitedNoiseFactory.next  under samples == 0 = False *)
 Definition bl_sample (polarity w : R) : R :=
   (Rmult w polarity).
-(* psiaudio/stim.py:953  ShapedNoiseFactory.__init__  under calibration is None = False  value of `self.scale` *)
+(* psiaudio/stim.py:955  ShapedNoiseFactory.__init__  under calibration is None = False  value of `self.scale` *)
 Definition shaped_scale (filter_sf msf : R) : R :=
   (Rmult (Rmult (sqrt 3) filter_sf) msf).
-(* psiaudio/stim.py:979  ShapedNoiseFactory.next  under samples == 0 = False *)
+(* psiaudio/stim.py:981  ShapedNoiseFactory.next  under samples == 0 = False *)
 Definition shaped_sample (polarity w : R) : R :=
   (Rmult w polarity).
-(* psiaudio/stim.py:804  BandlimitedFIRNoiseFactory.next  under samples == 0 = False *)
+(* psiaudio/stim.py:806  BandlimitedFIRNoiseFactory.next  under samples == 0 = False *)
 Definition fir_sample (polarity w : R) : R :=
   (Rmult w polarity).
